@@ -25,6 +25,9 @@ type guardSpec struct {
 	exempt        map[string]string
 	exemptCallers map[string]map[string]string // exempt method -> allowed callers (funcKey -> reason); nil = no non-test caller allowed
 	minAccesses   int
+	// outsiders: functions that are not methods of the type may touch the fields of an object if they hold that
+	// object's lock at the access (checked by a walk of the outsider), instead of being rejected outright
+	outsiders bool
 }
 
 func runGuardSpec(w *World, r *Report, g guardSpec) {
@@ -112,6 +115,33 @@ func runGuardSpec(w *World, r *Report, g guardSpec) {
 		sort.Strings(us)
 		for _, u := range us {
 			ok := strings.Contains(u, "."+g.typ+")") || strings.HasSuffix(u, ".New"+g.typ) || strings.Contains(u, ".New"+g.typ) || g.extraUsers()[u]
+			if !ok && g.outsiders {
+				if fn := w.fnByKey(u); fn != nil {
+					lt := w.LockTable()
+					var bad []string
+					n := 0
+					lw := &LockWalk{W: w, Fn: fn, OnInstr: func(in ssa.Instruction, st *LState) {
+						fa, isFA := in.(*ssa.FieldAddr)
+						if !isFA {
+							return
+						}
+						sst, isS := derefStruct(fa.X.Type())
+						if !isS || sst.Field(fa.Field) != f {
+							return
+						}
+						n++
+						if _, fresh := fa.X.(*ssa.Alloc); fresh {
+							return // object under construction in this function: not shared yet
+						}
+						if mu := lt.lockPath(fa.X) + "." + g.lock; !st.Holds(mu, false) {
+							bad = append(bad, f.Name()+" at "+w.InstrPos(in)+" without "+mu)
+						}
+					}}
+					lw.Run()
+					r.Check(len(bad) == 0 && n > 0 && !lw.Truncated, name+"-field:"+f.Name()+":outsider:"+u, "a function outside "+g.typ+" touches the field only while it holds the "+g.lock+" of the same object", strings.Join(uniq(bad), ", "))
+					continue
+				}
+			}
 			r.Check(ok, name+"-field:"+f.Name()+":user:"+u, "guarded field is touched only by methods of "+g.typ, u+" touches "+g.typ+"."+f.Name())
 		}
 	}
@@ -171,6 +201,12 @@ func init() {
 		runGuardSpec(w, r, guardSpec{pkg: "catalog", typ: "Catalog", lock: "tableNamesMutex",
 			fields: []string{"tableNames"}, minAccesses: 2})
 		atomicOnly(w, r, w.Field("catalog", "Catalog", "nextTableID"))
+	})
+
+	reg("C19-R1/statistics", "guard table (column statistics, written by the statistics updater thread and copied by every statement that is planned): columnStats.max / min / count / distinct are touched only with columnStats.latch held, and only by methods of columnStats or by functions that take the latch of the object they touch", func(w *World, r *Report) {
+		runGuardSpec(w, r, guardSpec{pkg: "catalog", typ: "columnStats", lock: "latch",
+			fields: []string{"max", "min", "count", "distinct"}, minAccesses: 8,
+			outsiders: true})
 	})
 
 	reg("C19-R1/pin", "Page.pinCount is touched only through sync/atomic", func(w *World, r *Report) {
